@@ -127,7 +127,7 @@ type gmWalk struct {
 }
 
 func (w *gmWalk) say(f string, a ...interface{}) { w.log = append(w.log, fmt.Sprintf(f, a...)) }
-func (w *gmWalk) hit(r string)                     { w.hits[r]++ }
+func (w *gmWalk) hit(r string)                   { w.hits[r]++ }
 func (w *gmWalk) fail(rule, class, f string, a ...interface{}) {
 	if w.viol != nil {
 		return
